@@ -22,6 +22,7 @@ void env_reset(void) {
 	env_on_write = NULL; cfg_set = 0; cfg_txt[0] = cfg_txt[1] = cfg_txt[2] = NULL;
 }
 int env_input_pending(void) { return in_head != in_tail; }
+void env_clear_io(void) { in_head = in_tail = 0; consumed = 0; out_len = 0; nwr = 0; }
 size_t env_input_dump(char *buf, size_t n) { size_t o = 0; buf[0] = 0; for (size_t i = in_head; i != in_tail && o + 4 < n; i++) o += (size_t) snprintf(buf + o, n - o, "%02x", inq[i % ENV_IN_MAX]); return o; }
 size_t env_bytes_consumed(void) { return consumed; }
 
